@@ -3,14 +3,17 @@ package props
 import (
 	"errors"
 	"fmt"
+	"net"
 	"sort"
 	"strings"
 	"testing"
+	"time"
 
 	"pgregory.net/rapid"
 
 	"verif/internal/cmdspec"
 	"verif/internal/connsim"
+	"verif/internal/doubles"
 	"verif/internal/resp"
 )
 
@@ -26,6 +29,8 @@ type c11Case struct {
 	CloseErr bool `json:"close_err,omitempty"`
 	// SecondRun: the server object has been started, stopped and started again before the connection arrives
 	SecondRun bool `json:"second_run,omitempty"`
+	// EOFWithData: the transport reports the end of the stream together with the last bytes
+	EOFWithData bool `json:"eof_with_data,omitempty"`
 }
 
 // evalC11 serves the prefix data[:cut]. The reference is the same server fed only
@@ -50,6 +55,9 @@ func evalC11(c c11Case) *Failure {
 		rec.ResultFn = pc.resultFn()
 		conn := connsim.NewPreloaded(1, [][]byte{stream})
 		conn.FullClose = full
+		if tested && c.EOFWithData {
+			conn.EOFWithData = true
+		}
 		if tested && c.CloseErr {
 			conn.CloseErr = errors.New("tls: failed to send closeNotify alert (but connection was closed anyway)")
 		}
@@ -112,6 +120,9 @@ func evalC11(c c11Case) *Failure {
 	if c.SecondRun {
 		what += "; second run of the server object"
 	}
+	if c.EOFWithData {
+		what += "; end of stream reported together with the last bytes"
+	}
 	gotCalls, gotFrames, out, fl, inReg, closes := run(data[:c.Cut], c.Close == "full", c.Close == "gone")
 	if fl != nil {
 		return fl
@@ -154,14 +165,103 @@ func evalC11(c c11Case) *Failure {
 	return nil
 }
 
-func init() { register("c11.cut", evalC11) }
+// c11TCP: the same on a real TCP connection through the accept loop: the client pipelines N requests with large replies
+// and a partial request, half-closes and only then reads, slowly. Every completely received request is answered - the
+// client receives the N complete replies - and then the stream ends without the partial request having been executed.
+type c11TCP struct {
+	N        int `json:"n"`         // complete requests
+	ReplyLen int `json:"reply_len"` // bytes of each reply's payload
+	DelayMS  int `json:"delay_ms"`  // the client starts reading this long after its half-close
+}
+
+func evalC11TCP(c c11TCP) *Failure {
+	srv, rec := newRecServer()
+	big := strings.Repeat("r", c.ReplyLen)
+	rec.ResultFn = func(cl *doubles.Call) doubles.Result {
+		v := resp.B(big)
+		return doubles.Result{Val: &v}
+	}
+	port, _, err := startOnFreePorts(srv, false)
+	if err != nil {
+		return failf("harness|start", "Start: %v", err)
+	}
+	defer srv.Stop()
+	what := fmt.Sprintf("TCP client pipelines %d GETs (replies of %d bytes) and a partial request, half-closes, reads after %d ms", c.N, c.ReplyLen, c.DelayMS)
+	conn, err := net.DialTimeout("tcp", fmt.Sprintf("127.0.0.1:%d", port), 10*time.Second)
+	if err != nil {
+		return failf("harness|dial", "%v", err)
+	}
+	defer conn.Close()
+	var req []byte
+	for i := 0; i < c.N; i++ {
+		req = append(req, resp.Cmd("GET", fmt.Sprintf("k%d", i)).Bytes()...)
+	}
+	req = append(req, []byte("*2\r\n$3\r\nGET\r\n$7\r\npart")...)
+	go func() {
+		conn.Write(req)
+		conn.(*net.TCPConn).CloseWrite()
+	}()
+	time.Sleep(time.Duration(c.DelayMS) * time.Millisecond)
+	conn.SetReadDeadline(time.Now().Add(60 * time.Second))
+	var got []byte
+	buf := make([]byte, 64*1024)
+	var rerr error
+	for {
+		n, err := conn.Read(buf)
+		got = append(got, buf[:n]...)
+		if err != nil {
+			rerr = err
+			break
+		}
+		time.Sleep(200 * time.Microsecond) // a slow reader
+	}
+	frames, _, derr := resp.DecodeAll(got)
+	if len(frames) != c.N {
+		return failf("c11|replies", "%s: received %d complete replies (%d bytes, then %v; tail %v), the %d completely received requests produce %d", what, len(frames), len(got), rerr, derr, c.N, c.N)
+	}
+	for i, f := range frames {
+		if !f.Equal(resp.B(big)) {
+			return failf("c11|replies", "%s: reply %d is not the value the handler returned", what, i)
+		}
+	}
+	if derr != nil {
+		return failf("c11|replies", "%s: bytes after the last complete reply: %v", what, derr)
+	}
+	for _, cl := range rec.Snapshot() {
+		if len(cl.Args) > 0 && strings.HasPrefix(cl.Args[0], "part") {
+			return failf("c11|calls", "%s: the partial request was executed: %s", what, callStr(cl))
+		}
+	}
+	if n := len(rec.Snapshot()); n != c.N {
+		return failf("c11|calls", "%s: %d handler calls for %d complete requests", what, n, c.N)
+	}
+	return nil
+}
+
+func init() {
+	register("c11.cut", evalC11)
+	register("c11.tcp", evalC11TCP)
+}
 
 func TestC11(t *testing.T) {
-	h := newHarness(t, "C11", "pipelines of 1..5 well-formed requests from the grammar (every command, options, binary arguments) x EVERY byte offset of the encoded stream as the point where the stream ends x {half-close, full close after the last byte, peer already gone (every reply write fails)} x {ordinary transport on a fresh server, transport whose Close reports an error although it closes (as tls.Conn when close_notify cannot be sent), server object started-stopped-started before}. "+
+	h := newHarness(t, "C11", "pipelines of 1..5 well-formed requests from the grammar (every command, options, binary arguments) x EVERY byte offset of the encoded stream as the point where the stream ends x {half-close, full close after the last byte, peer already gone (every reply write fails)} x {ordinary transport on a fresh server, transport whose Close reports an error although it closes (as tls.Conn when close_notify cannot be sent), server object started-stopped-started before, transport that reports the end of the stream together with the last bytes}. "+
+		"Plus, on a real TCP connection through the accept loop: N requests with replies of up to 1 MiB each and a partial request, half-close, then a slow reader: all N replies arrive complete. "+
 		"Oracle (differential): the handler-call log and the replies equal those of the same server fed only the requests whose last byte lies before the cut; the loop returns, closes the connection and leaves the registry. "+
 		"Non-trivial: the cut lies strictly inside a request and at least one request precedes it. Distinct = distinct (stream, cut, close mode).")
 	defer h.Finish()
 	h.Probes()
+
+	// real TCP through the accept loop: replies beyond what the socket buffers hold, read after the half-close
+	if h.Shard == 0 {
+		cases := []c11TCP{{N: 24, ReplyLen: 1 << 20, DelayMS: 300}, {N: 3, ReplyLen: 100, DelayMS: 50}}
+		if h.Thorough() {
+			cases = append(cases, c11TCP{N: 200, ReplyLen: 1 << 18, DelayMS: 1000}, c11TCP{N: 2000, ReplyLen: 4096, DelayMS: 100})
+		}
+		for _, c := range cases {
+			h.Col.Case(true, []byte(fmt.Sprint("tcp", c)), "tcp-half-close-slow-reader")
+			h.Report("c11.tcp", c, evalC11TCP(c))
+		}
+	}
 
 	h.Rapid("cuts", h.N(500, 6000), func(rt *rapid.T) {
 		g := &cmdspec.G{T: rt, Avoid: h.Avoid}
@@ -180,11 +280,13 @@ func TestC11(t *testing.T) {
 			c.GetValue = "7"
 		}
 		// per pipeline: an ordinary transport and a fresh server, or a transport whose Close reports an error, or a server object in its second run
-		switch rapid.IntRange(0, 3).Draw(rt, "env") {
+		switch rapid.IntRange(0, 4).Draw(rt, "env") {
 		case 0:
 			c.CloseErr = true
 		case 1:
 			c.SecondRun = true
+		case 2:
+			c.EOFWithData = true
 		}
 		pc := pipeCase{Reqs: c.Reqs}
 		data, ends := resp.EncodeAll(pc.values())
@@ -229,7 +331,7 @@ func TestC11(t *testing.T) {
 				} else if class == "" {
 					class = "cut-in-body"
 				}
-				h.Col.Case(!isEnd[cut] && k >= 1, append(append([]byte{}, data...), []byte(fmt.Sprintf("|%d|%s|%s|%v|%v", cut, mode, c.GetMode, c.CloseErr, c.SecondRun))...), class, "close:"+mode)
+				h.Col.Case(!isEnd[cut] && k >= 1, append(append([]byte{}, data...), []byte(fmt.Sprintf("|%d|%s|%s|%v|%v|%v", cut, mode, c.GetMode, c.CloseErr, c.SecondRun, c.EOFWithData))...), class, "close:"+mode)
 				if h.Col.WantSample() {
 					h.Col.Sample(map[string]any{"requests": pc.strings(), "cut": cut, "stream_len": len(data), "close": mode})
 				}
